@@ -53,6 +53,7 @@ let spec_of opname kv =
   | "flatten" -> SpFlatten
   | "share" -> SpShare
   | "interval" -> SpInterval
+  | "tree" -> SpTree
   | s -> failwith ("unknown op " ^ s)
 
 let parse_header (s : string) : header =
@@ -358,6 +359,22 @@ let pick (l : (int * move) list) : move option =
     !res
   end
 
+(* "late" moves: a peer that uses a talkback / handler after the protocol is over for it.  A
+   conformant peer never does; the crate's own deviating operators do (combine pulls ended members,
+   share's nested fan-out).  Scripts with late=1 contain such moves; they are only used to compare
+   model and crate (no monitor verdicts).  Excluded where the model is knowingly not faithful
+   outside the protocol (counter underflow / index out of bounds in combine and concat). *)
+let is_late_move (h : header) (tr : event list) (m : move) : bool =
+  match m with
+  | MIn (IUp (s, _)) ->
+      (* the sink was greeted at some point (it holds a talkback) *)
+      List.exists (fun e -> match e with ECall (CDn (s', DH)) -> s' = s | _ -> false) tr
+  | MIn (IDn (_, DH)) -> false
+  | MIn (IDn (i, _)) ->
+      h.opname <> "concat" && h.opname <> "combine"
+      && List.exists (fun e -> match e with EIn (IDn (i', DH)) -> i' = i | _ -> false) tr
+  | _ -> false
+
 let gen_script (h : header) (maxlen : int) : string =
   let nsk = nat_of_int h.nsk in
   let nsub = max 1 h.subs in
@@ -366,27 +383,41 @@ let gen_script (h : header) (maxlen : int) : string =
   let out = ref [] in
   let len = ref 0 in
   let stop = ref false in
+  (* subscriptions owning the currently open frames, innermost first: a return always closes the
+     innermost frame; other moves may come from ANY subscription (a subscription acting from inside
+     another one's handler, e.g. nested for_each over the same source - C13) *)
+  let gstack = ref [] in
   while not !stop && !len < maxlen do
-    (* which subscription moves: one with a pending call must go on *)
-    let busy = ref (-1) in
-    Array.iteri (fun k c -> if int_of_nat (depth_spec h.sp c) > 0 then busy := k) cfgs;
-    let sub = if !busy >= 0 then !busy else rand nsub in
+    let sub =
+      match !gstack with
+      | [] -> rand nsub
+      | top :: _ -> if nsub > 1 && rand 4 = 0 then rand nsub else top in
     let c = cfgs.(sub) in
     let depth = int_of_nat (depth_spec h.sp c) in
     let cands = candidates h vcount ecount in
-    let cands = List.map (fun (w, m) ->
+    let cands = List.filter_map (fun (w, m) ->
       match m with
-      | MRet -> ((if depth > 3 then w * 4 else w), m)
-      | _ -> (w, m)) cands in
-    let en = List.filter (fun (_, m) -> enabled_spec h.sp h.pull nsk c m) cands in
+      | MRet ->
+          (match !gstack with
+           | top :: _ when top = sub -> Some ((if List.length !gstack > 3 then w * 4 else w), m)
+           | _ -> None)
+      | _ -> Some (w, m)) cands in
+    let late = get h.kv "late" "0" = "1" in
+    let en = List.filter (fun (_, m) ->
+      enabled_spec h.sp h.pull nsk c m
+      || (late && rand 5 = 0 && is_late_move h (trace_spec h.sp c) m)) cands in
     match pick en with
-    | None -> stop := true
+    | None -> if !gstack = [] || sub <> List.hd !gstack then (if rand 8 = 0 then stop := true) else stop := true
     | Some m ->
         (match m with
          | MIn (IDn (_, DD _)) -> incr vcount
          | MIn (IDn (_, DE _)) | MIn (IUp (_, UE _)) -> incr ecount
          | _ -> ());
-        cfgs.(sub) <- step_spec h.sp h.pull nsk c m;
+        let c' = step_spec h.sp h.pull nsk c m in
+        cfgs.(sub) <- c';
+        let depth' = int_of_nat (depth_spec h.sp c') in
+        if depth' > depth then gstack := sub :: !gstack
+        else if depth' < depth then (match !gstack with _ :: r -> gstack := r | [] -> ());
         out := (if nsub > 1 then Printf.sprintf "%d:%s" sub (str_move m) else str_move m) :: !out;
         incr len
   done;
@@ -422,7 +453,9 @@ let gen_header (opname : string) : string =
     | "share" -> Printf.sprintf "op=share sinks=%d" (1 + rand 3)
     | "interval" -> "op=interval"
     | s -> failwith ("unknown op " ^ s) in
-  Printf.sprintf "%s env=%s subs=%d" base env subs
+  let late = try List.assoc "late" !forced with Not_found -> "0" in
+  if late = "1" then Printf.sprintf "%s env=std subs=1 late=1" base
+  else Printf.sprintf "%s env=%s subs=%d" base env subs
 
 let cmd_gen seed count ops =
   rng_state := Int64.of_int seed;
@@ -681,8 +714,51 @@ let cmd_tgen seed count syss =
     print_endline (Buffer.contents buf)
   done
 
+(* ---------- closed compositions ("trees") of crate operators, scripted sink (real crate only) ---------- *)
+
+let rec gen_tree (depth : int) (pullonly : bool) : string =
+  let leaf () =
+    let l = rand 4 in
+    Printf.sprintf "fi:%s" (if l = 0 then "-" else String.concat "," (List.init l (fun _ -> string_of_int (rand 10)))) in
+  if depth <= 0 then leaf ()
+  else
+    let sub () = gen_tree (depth - 1 - rand 2) pullonly in
+    match rand (if pullonly then 9 else 12) with
+    | 0 -> leaf ()
+    | 1 -> Printf.sprintf "mp:%d:%d(%s)" (1 + rand 2) (rand 3) (sub ())
+    | 2 -> let m = 1 + rand 3 in Printf.sprintf "fl:%d:%d(%s)" m (rand m) (sub ())
+    | 3 -> Printf.sprintf "tk:%d(%s)" (1 + rand 3) (sub ())
+    | 4 -> Printf.sprintf "sk:%d(%s)" (rand 3) (sub ())
+    | 5 -> Printf.sprintf "sc:%d:%d(%s)" (rand 2) (rand 3) (sub ())
+    | 6 | 7 -> let k = 2 + rand 2 in Printf.sprintf "cc(%s)" (String.concat ";" (List.init k (fun _ -> sub ())))
+    | 8 -> Printf.sprintf "fm:%d(%s)" (rand 4) (sub ())
+    | 9 -> let k = 2 + rand 2 in Printf.sprintf "mg(%s)" (String.concat ";" (List.init k (fun _ -> sub ())))
+    | _ -> Printf.sprintf "cb(%s;%s)" (sub ()) (sub ())
+
+let cmd_gentree seed count pullonly =
+  rng_state := Int64.of_int seed;
+  for _ = 1 to count do
+    let t = gen_tree (1 + rand 3) pullonly in
+    let n = 3 + rand 14 in
+    (* the sink: subscribe, then pulls / returns / at most one disposal; in pull mode at most one Pull per
+       message received is enforced by the harness-independent rule: P only right after S or inside a handler *)
+    let moves = Buffer.create 64 in
+    Buffer.add_string moves "S0";
+    let disposed = ref false in
+    for _ = 1 to n do
+      if not !disposed then
+        match rand 10 with
+        | 0 -> Buffer.add_string moves " T0"; disposed := true
+        | 1 | 2 | 3 -> Buffer.add_string moves " r"
+        | _ -> Buffer.add_string moves " P0"
+      else Buffer.add_string moves " r"
+    done;
+    Printf.printf "op=tree tree=%s env=%s subs=1 | %s\n" t (if pullonly then "pull" else "std") (Buffer.contents moves)
+  done
+
 let () =
   match Array.to_list Sys.argv with
+  | _ :: "gentree" :: seed :: count :: rest -> cmd_gentree (int_of_string seed) (int_of_string count) (rest = ["pull"])
   | _ :: "threads" :: _ -> cmd_threads ()
   | _ :: "tmon" :: _ -> cmd_tmon ()
   | _ :: "texplore" :: limit :: rest -> cmd_texplore (int_of_string limit) (String.concat " " rest)
